@@ -10,6 +10,7 @@ package fs
 // unchanged tree and are documented design differences are filtered by `modelKnownDifference`.
 
 import (
+	"archive/tar"
 	"bytes"
 	"fmt"
 	"io"
@@ -29,8 +30,11 @@ import (
 	"github.com/spf13/afero"
 )
 
-func modelOpen(t testing.TB, dir, drive, index string) *STFS {
-	pipes := config.PipeConfig{RecordSize: 20}
+func modelOpenRaw(t testing.TB, dir, drive, index string) *STFS {
+	pipes := config.PipeConfig{RecordSize: 20, Compression: os.Getenv("VERIF_COMPRESSION")}
+	if v := os.Getenv("VERIF_RECORDSIZE"); v != "" {
+		fmt.Sscan(v, &pipes.RecordSize)
+	}
 	tm := tape.NewTapeManager(drive, nil, pipes.RecordSize, false)
 	meta := persisters.NewMetadataPersister(index)
 	if err := meta.Open(); err != nil {
@@ -46,6 +50,11 @@ func modelOpen(t testing.TB, dir, drive, index string) *STFS {
 		}
 		return cache.NewCacheWrite(filepath.Join(dir, "wc"), config.WriteCacheTypeMemory)
 	}, false, false, func(*config.Header) {}, logging.NewJSONLogger(0))
+	return f
+}
+
+func modelOpen(t testing.TB, dir, drive, index string) *STFS {
+	f := modelOpenRaw(t, dir, drive, index)
 	if _, err := f.Initialize("/", os.ModePerm); err != nil {
 		t.Fatalf("initialize: %v", err)
 	}
@@ -299,7 +308,7 @@ func modelRandomHistories() map[string][]modelStep {
 		seed ^= seed << 17
 		return seed
 	}
-	names := []string{"/a", "/b", "/a/x", "/a/y", "/a/x/z", "/b/x", "/c", "/a/x/a", "/ab", "/a_"}
+	names := []string{"/a", "/b", "/a/x", "/a/y", "/a/x/z", "/b/x", "/c", "/a/x/a", "/ab", "/a_", "/c.gz", "/a/x.gz", "/b.zst"}
 	pick := func() string { return names[next()%uint64(len(names))] }
 	out := map[string][]modelStep{}
 	for h := 0; h < count; h++ {
@@ -325,6 +334,154 @@ func modelRandomHistories() map[string][]modelStep {
 	return out
 }
 
+// modelForeign: archives written by archive/tar (ustar, PAX, GNU; members named relative to "./", to nothing, to a
+// named top directory, or absolute) are opened through the documented composition (Initialize, then the cache wrapper
+// with the root Initialize reported). Every member must be listed, stat-able and readable under the three spellings
+// "/x", "x", "./x"; then the archive is modified through one spelling and observed through the others, on the live
+// instance and on one rebuilt from the tape.
+func modelForeign(t *testing.T) {
+	type member struct {
+		name string
+		data string
+	}
+	members := []member{{"a.txt", "alpha"}, {"d/", ""}, {"d/f.txt", "file in d"}, {"d/sub/", ""}, {"d/sub/g.txt", "deep"}}
+	for _, rootStyle := range []string{"./", "top/", "/"} { // an entry for the top-level directory is part of the property's premise
+		for fname, format := range map[string]tar.Format{"ustar": tar.FormatUSTAR, "pax": tar.FormatPAX, "gnu": tar.FormatGNU} {
+			label := fmt.Sprintf("foreign %s archive rooted at %q", fname, rootStyle)
+			dir := t.TempDir()
+			drive := filepath.Join(dir, "drive.tar")
+			var buf bytes.Buffer
+			tw := tar.NewWriter(&buf)
+			wr := func(name, data string) {
+				h := &tar.Header{Name: name, Mode: 0o644, ModTime: time.Unix(1600000000, 0), Format: format, Typeflag: tar.TypeReg, Size: int64(len(data))}
+				if name == "" || strings.HasSuffix(name, "/") {
+					h.Typeflag, h.Mode, h.Size = tar.TypeDir, 0o755, 0
+				}
+				if err := tw.WriteHeader(h); err != nil {
+					t.Fatal(err)
+				}
+				tw.Write([]byte(data))
+			}
+			if rootStyle != "" {
+				wr(rootStyle, "")
+			}
+			for _, m := range members {
+				wr(rootStyle+m.name, m.data)
+			}
+			tw.Close()
+			if err := os.WriteFile(drive, buf.Bytes(), 0o644); err != nil {
+				t.Fatal(err)
+			}
+			open := func(index string) (afero.Fs, error) {
+				stfs := modelOpenRaw(t, dir, drive, index)
+				root, err := stfs.Initialize("/", os.ModePerm)
+				if err != nil {
+					return nil, err
+				}
+				return cache.NewCacheFilesystem(stfs, root, config.NoneKey, 0, "")
+			}
+			fs, err := open(filepath.Join(dir, "index.sqlite"))
+			if err != nil {
+				t.Errorf("FAILING-INPUT: %s: opening: %v", label, err)
+				continue
+			}
+			check := func(fs afero.Fs, stage string, want map[string]string) {
+				for name, data := range want {
+					for _, sp := range []string{"/" + name, name, "./" + name} {
+						st, err := fs.Stat(sp)
+						if err != nil {
+							t.Errorf("FAILING-INPUT: %s: %s: Stat(%q): %v", label, stage, sp, err)
+							continue
+						}
+						isDir := strings.HasSuffix(name, "/")
+						if st.IsDir() != isDir {
+							t.Errorf("FAILING-INPUT: %s: %s: Stat(%q) says dir=%v", label, stage, sp, st.IsDir())
+						}
+						if !isDir {
+							f, err := fs.Open(sp)
+							if err != nil {
+								t.Errorf("FAILING-INPUT: %s: %s: Open(%q): %v", label, stage, sp, err)
+								continue
+							}
+							b, err := io.ReadAll(f)
+							f.Close()
+							if err != nil || string(b) != data {
+								t.Errorf("FAILING-INPUT: %s: %s: reading %q gives %q, %v (member data %q)", label, stage, sp, b, err, data)
+							}
+						}
+					}
+				}
+				// listing of the root through the three spellings
+				for _, sp := range []string{"/", ".", "./", ""} {
+					if sp == "" {
+						continue
+					}
+					d, err := fs.Open(sp)
+					if err != nil {
+						t.Errorf("FAILING-INPUT: %s: %s: Open(%q): %v", label, stage, sp, err)
+						continue
+					}
+					names, err := d.Readdirnames(-1)
+					d.Close()
+					sort.Strings(names)
+					var top []string
+					for name := range want {
+						n := strings.TrimSuffix(name, "/")
+						if !strings.Contains(n, "/") {
+							top = append(top, n)
+						}
+					}
+					sort.Strings(top)
+					if err != nil || strings.Join(names, ",") != strings.Join(top, ",") {
+						t.Errorf("FAILING-INPUT: %s: %s: listing %q gives %q, %v; the archive's top level is %q", label, stage, sp, names, err, top)
+					}
+				}
+			}
+			want := map[string]string{}
+			for _, m := range members {
+				want[m.name] = m.data
+			}
+			check(fs, "as opened", want)
+			// modify through different spellings
+			if err := afero.WriteFile(fs, "new.txt", []byte("new"), 0o644); err != nil {
+				t.Errorf("FAILING-INPUT: %s: WriteFile(\"new.txt\"): %v", label, err)
+			} else {
+				want["new.txt"] = "new"
+			}
+			if err := fs.Rename("/d", "/e"); err != nil {
+				t.Errorf("FAILING-INPUT: %s: Rename(\"/d\", \"/e\"): %v", label, err)
+			} else {
+				for _, m := range members {
+					if strings.HasPrefix(m.name, "d/") {
+						delete(want, m.name)
+						want["e/"+strings.TrimPrefix(m.name, "d/")] = m.data
+					}
+				}
+			}
+			if err := fs.Remove("./a.txt"); err != nil {
+				t.Errorf("FAILING-INPUT: %s: Remove(\"./a.txt\"): %v", label, err)
+			} else {
+				delete(want, "a.txt")
+			}
+			if err := fs.Chmod("e/f.txt", 0o600); err != nil {
+				t.Errorf("FAILING-INPUT: %s: Chmod(\"e/f.txt\"): %v", label, err)
+			}
+			check(fs, "after new.txt, rename /d -> /e, remove ./a.txt, chmod e/f.txt", want)
+			for _, gone := range []string{"/a.txt", "d", "./d/f.txt"} {
+				if _, err := fs.Stat(gone); err == nil {
+					t.Errorf("FAILING-INPUT: %s: %q still exists after it was removed/renamed", label, gone)
+				}
+			}
+			fs2, err := open(filepath.Join(dir, "index2.sqlite"))
+			if err != nil {
+				t.Errorf("FAILING-INPUT: %s: rebuilding after the modifications: %v", label, err)
+				continue
+			}
+			check(fs2, "rebuilt from the tape after the modifications", want)
+		}
+	}
+}
+
 // modelKnownDifference: outcome differences between stfs and the OS filesystem that exist on the unchanged tree and
 // are not part of any listed property (error-vs-success only; tree differences are never filtered).
 func modelKnownDifference(history, step string) bool {
@@ -342,6 +499,10 @@ func TestVerifReplay_Model(t *testing.T) {
 	}
 	if mode == "flags" {
 		modelFlags(t)
+		return
+	}
+	if mode == "foreign" {
+		modelForeign(t)
 		return
 	}
 	hs := modelHistories()
